@@ -1576,3 +1576,67 @@ def no_mutation_while_iterating(ctx, rid: str, modules, want) -> None:
                  f"'{stmt_text(hits[0], 70)}' resizes {cont} inside 'for ... in {norm(it)[:50]}' and the loop goes on: the next step raises RuntimeError "
                  f"(changed size during iteration) - iterate over a copy (list(...)) as the surrounding code does", hits[0] if hits else lp)
     c.ob(rid, True, "engine", "iterate-and-resize-sites", f"{n} direct iterations over interpreter containers examined", None, nontrivial=False)
+
+
+def declared_entries_kept(ctx, rule: str, parser: str, what: str, consequence: str) -> None:
+    """Every entry of a raw config mapping / list reaches the parsed result: in StateNode.<parser> the loop over the raw entries stores
+    into the returned container in every iteration (a refusal by ``raise`` aside).  A parser that drops an entry it considers
+    redundant changes what the machine does - a null transition exists precisely to be found, a delay to be armed, a service to be
+    started."""
+    from sa.util import every_iteration, returned_name
+    c, p = ctx.c, ctx.p
+    f = p.cls("StateNode").methods[parser]
+    res = returned_name(f)
+    loops = [l for l in own_nodes(f.node) if isinstance(l, ast.For) and not enclosing_loops(f, l) and
+             any(isinstance(y, (ast.Name, ast.Attribute, ast.Call)) and ("raw_" in norm(y) or "config" in norm(y) or "_configs" in norm(y)) for y in ast.walk(l.iter))]
+    if not c.expect(rule, f"loop over the declared {what} in {f.short}", len(loops) if res else 0, 1, f,
+                    f"{f.short} no longer walks the declared {what} into the container it returns"):
+        return
+    for l in loops:
+        stores = [x for x in own_nodes(f.node) if l in enclosing_loops(f, x) and (
+            (isinstance(x, ast.Assign) and isinstance(x.targets[0], ast.Subscript) and norm(x.targets[0].value) == res) or
+            (isinstance(x, ast.Call) and isinstance(x.func, ast.Attribute) and x.func.attr in ("append", "extend", "setdefault") and norm(x.func.value) == res))]
+        ok = bool(stores) and every_iteration(f, l, stores)
+        c.ob(rule, ok, f, f"declared-{what}-kept", f"every declared entry of {what} is stored in the parsed result" if ok else
+             f"an iteration of '{stmt_text(l)}' can end without storing into '{res}': a declared entry of {what} is dropped at parse time - {consequence}", l)
+
+
+def _kind_atom(f, text: str) -> bool:
+    """*text* tests the kind of the state the walker stands on: <node param>.get('type') / ['type'] / .type / .is_final / .history ..."""
+    import re
+    for prm in f.params:
+        if prm in ("self", "cls"):
+            continue
+        if re.search(rf"\b{re.escape(prm)}(\.get\('type'|\['type'\]|\.type\b|\.is_(final|atomic|parallel|compound|history)\b|\.history\b)", text):
+            return True
+    return False
+
+
+def walker_kind_blind(ctx, rule: str, f, what: str) -> None:
+    """A walker that collects the logic names a machine references visits every bucket of every state, whatever kind the state is:
+    the engine runs transitions, timers and services declared on a final state, and treats a 'final' state with children as a
+    compound one.  No early exit and no bucket visit of the walker may depend on the state's kind."""
+    c = ctx.c
+    n = 0
+    for r_ in [x for x in own_nodes(f.node) if isinstance(x, (ast.Return, ast.Continue, ast.Break))]:
+        if isinstance(r_, ast.Return) and r_ is f.node.body[-1]:
+            continue
+        atoms = guards_at(f, r_)
+        kind = [norm(a) for a, pol in atoms if _kind_atom(f, norm(a))]
+        if isinstance(r_, (ast.Continue, ast.Break)) and not kind:
+            continue
+        shape_only = bool(atoms) and all(norm(a).startswith("isinstance(") and not pol for a, pol in atoms)
+        n += 1
+        ok = not kind and (shape_only or isinstance(r_, (ast.Continue, ast.Break)))
+        c.ob(rule, ok, f, f"walker-early-exit:{norm(atoms[-1][0])[:40] if atoms else 'unconditional'}",
+             "the walker leaves a node early only to refuse a value of the wrong shape" if ok else
+             f"{f.short} stops collecting {what} for some states ('{stmt_text(r_)}' under {kind or [norm(a) for a, _ in atoms]}): names referenced only by the "
+             f"buckets below that point are never collected, although the engine does run them", r_)
+    visits = [x for x in own_nodes(f.node) if isinstance(x, ast.Call) and (
+        (isinstance(x.func, ast.Name) and x.func.id.startswith(("_extract", "_traverse", "_collect"))) or
+        (isinstance(x.func, ast.Attribute) and (x.func.attr in ("add", "update", "extend", "append") or x.func.attr.startswith(("_extract", "_collect", "_traverse")))))]
+    bad = [(x, [norm(a) for a, pol in guards_at(f, x) if _kind_atom(f, norm(a))]) for x in visits]
+    bad = [(x, k) for x, k in bad if k]
+    c.ob(rule, not bad, f, "walker-visits-kind-blind", f"all {len(visits)} collecting sites of the walker run for states of every kind" if not bad else
+         f"'{stmt_text(bad[0][0])}' collects {what} only for some kinds of state ({bad[0][1]})", bad[0][0] if bad else f.node)
+    c.floor(rule, f"collecting sites in {f.short}", len(visits), 3)
